@@ -84,3 +84,53 @@ func (w *World) ConcreteTypes() []types.Type {
 	}
 	return w.concrete
 }
+
+// ConstGlobals: package-level variables that init sets once to a constant and that no other code of the
+// module writes or takes the address of (e.g. dsl.PrimitiveString). Loads from them read that constant.
+func (w *World) ConstGlobals() map[*ssa.Global]*ssa.Const {
+	if w.constGlobals != nil {
+		return w.constGlobals
+	}
+	cand := map[*ssa.Global]*ssa.Const{}
+	bad := map[*ssa.Global]bool{}
+	for _, f := range w.AllFns {
+		if !w.InModule(f) {
+			continue
+		}
+		isInit := f.Name() == "init" && f.Parent() == nil
+		for _, b := range f.Blocks {
+			for _, ins := range b.Instrs {
+				for _, op := range ins.Operands(nil) {
+					g, ok := (*op).(*ssa.Global)
+					if !ok {
+						continue
+					}
+					switch x := ins.(type) {
+					case *ssa.UnOp:
+						// load
+					case *ssa.Store:
+						if x.Addr == ssa.Value(g) && isInit {
+							if c, ok := x.Val.(*ssa.Const); ok && c.Value != nil {
+								if _, dup := cand[g]; dup {
+									bad[g] = true
+								}
+								cand[g] = c
+								continue
+							}
+						}
+						bad[g] = true
+					default:
+						bad[g] = true
+					}
+				}
+			}
+		}
+	}
+	w.constGlobals = map[*ssa.Global]*ssa.Const{}
+	for g, c := range cand {
+		if !bad[g] {
+			w.constGlobals[g] = c
+		}
+	}
+	return w.constGlobals
+}
